@@ -12,8 +12,8 @@ open GM GM.Text GM.Spec GM.Proof.Reader
 theorem blockAt_q0 (l : List Block) : blockAt (bqBlock :: l.map shB) 0 = .ok bqBlock := rfl
 
 theorem closeLoopAll_sim {src al} (ps : PS src al) (fr : Frames al) (l : List Block) (hl : OKB al l) :
-    ∀ (n : Nat) {k ls p} {sA sB : St}, SR src k ls p sA sB → AInv al sA.pc →
-      S2 (fun _ _ sA' sB' => SR src k ls p sA' sB' ∧ AInv al sA'.pc)
+    ∀ (n : Nat) {k ls p} {sA sB : St}, SR src k ls p sA sB → AInv al sA.pc sA.nodes →
+      S2 (fun _ _ sA' sB' => SR src k ls p sA' sB' ∧ AInv al sA'.pc sA'.nodes)
         (closeLoop l 0 n sA) (closeLoop (bqBlock :: l.map shB) 0 (n + 1) sB) := by
   intro n
   induction n with
@@ -65,14 +65,17 @@ theorem closeLoopAll_sim {src al} (ps : PS src al) (fr : Frames al) (l : List Bl
       by_cases hs : x.parent.isSome = true
       · rw [if_pos hs, if_pos hs]
         refine S2.bind (S2.andL (ps.close a.bp hal k ls p a.node sA sB h hn0 ha)
-          (F := fun _ sA' => AInv al sA'.pc) (fun _ sA' e => fr.close _ _ _ _ _ e ha))
+          (F := fun _ sA' => AInv al sA'.pc sA'.nodes) (fun _ sA' e => fr.close _ _ _ _ _ e hal hn0 ha))
           (fun _ _ sA3 sB3 h3 => ih h3.1 h3.2)
       · rw [if_neg hs, if_neg hs]; exact ih h ha
+
+/-- the relation between the two FINAL node stores, with the unary invariant of A's store -/
+def FRel (src : Bytes) (nA nB : List Node) : Prop := StoreRel src nA nB ∧ UStore nA
 
 /-- closeBlocks(lastIndex, 0) at the end of the source: afterwards nothing is open on either side -/
 theorem closeBlocksAll_sim {src al} (ps : PS src al) (fr : Frames al) {k ls p} {sA sB : St} (h : DR src al k ls p sA sB)
     (L : Int) (hL : L = (sA.pc.opened.length : Int) - 1) :
-    S2 (fun _ _ sA' sB' => StoreRel src sA'.nodes sB'.nodes) (closeBlocks L 0 sA) (closeBlocks (L + 1) 0 sB) := by
+    S2 (fun _ _ sA' sB' => FRel src sA'.nodes sB'.nodes) (closeBlocks L 0 sA) (closeBlocks (L + 1) 0 sB) := by
   unfold closeBlocks
   refine S2.bind (getPc_s2 h.s) (fun a b sA1 sB1 hq => ?_)
   obtain ⟨ha, hb, hc, e1, e2⟩ := hq
@@ -83,7 +86,7 @@ theorem closeBlocksAll_sim {src al} (ps : PS src al) (fr : Frames al) {k ls p} {
   have en : (L + 1 - 0 + 1).toNat = (L - 0 + 1).toNat + 1 := by omega
   rw [en]
   refine S2.bind (closeLoopAll_sim ps fr sA.pc.opened h.a.opened _ h.s h.a) (fun _ _ sA2 sB2 hq => ?_)
-  obtain ⟨h2, _⟩ := hq
+  obtain ⟨h2, ha2⟩ := hq
   have e0 : (((bqBlock :: sA.pc.opened.map shB).length : Nat) : Int) = (sA.pc.opened.length : Int) + 1 := by
     simp only [List.length_cons, List.length_map]; omega
   rw [e0]
@@ -101,7 +104,7 @@ theorem closeBlocksAll_sim {src al} (ps : PS src al) (fr : Frames al) {k ls p} {
   have l2 : liftE (.ok [] : Except Panic (List Block)) sB2 = .ok ([], sB2) := rfl
   rw [bind_run l1, bind_run l2]
   unfold modPc
-  exact S2.ok h2.n
+  exact S2.ok ⟨h2.n, ha2.u⟩
 
 /-! ### the fall-through of the per-line loop: openBlocks below block `i`, then close what is left over -/
 
@@ -130,9 +133,9 @@ theorem slotAfter_q (old new : List Block) (L : Int) (hL : 0 ≤ L) :
 def LLRel (src : Bytes) (al : BP → Bool) (k ls : Nat) (a b : LineOutcome × List LineStat) (sA sB : St) : Prop :=
   b.1 = a.1 ∧ match a.1 with
     | .next => ∃ p', DR src al k ls p' sA sB
-    | .eof => StoreRel src sA.nodes sB.nodes
+    | .eof => FRel src sA.nodes sB.nodes
 
-theorem llOpen_sim {src al} (ps : PS src al) (fr : Frames al) (ns : NS src) (tr : TrigOK src al)
+theorem llOpen_sim {src al} (ps : PS src al) (fr : Frames al) (ot : OT src) (ns : NS src) (tr : TrigOK src al)
     (ob : List Block) (L i : Int) (bA bB : Bool) (stA stB : List LineStat) (t : Nat) {k ls p} {sA sB : St}
     (h : DRL src al k ls p sA sB) :
     S2 (LLRel src al k ls) (llOpen ob L i bA stA t sA)
@@ -145,8 +148,8 @@ theorem llOpen_sim {src al} (ps : PS src al) (fr : Frames al) (ns : NS src) (tr 
   obtain ⟨hb, hL, e1, e2⟩ := hq
   subst hb
   rw [e1, e2]
-  refine S2.bind (openBlocks_sim ps fr ns tr bA bB t h) (fun ra rb sA2 sB2 hq => ?_)
-  obtain ⟨hr, p', h2⟩ := hq
+  refine S2.bind (openBlocks_sim ps fr ot ns tr bA bB t h) (fun ra rb sA2 sB2 hq => ?_)
+  obtain ⟨hr, ⟨p', h2⟩, _⟩ := hq
   rw [hr]
   by_cases hc : (ra != OpenResult.paragraphContinuation) = true
   · rw [if_pos hc, if_pos hc]
@@ -181,7 +184,7 @@ def llFall (q : Nat) (ob : List Block) (L i : Int) (blank : Bool) (blankLines : 
     let thisParent ← pure q
     llOpen ob L i blank blankLines thisParent
 
-theorem llFall_sim {src al} (ps : PS src al) (fr : Frames al) (ns : NS src) (tr : TrigOK src al)
+theorem llFall_sim {src al} (ps : PS src al) (fr : Frames al) (ot : OT src) (ns : NS src) (tr : TrigOK src al)
     (ob : List Block) (L i : Int) (hi : 0 ≤ i) (bA bB : Bool) (stA stB : List LineStat) {k ls p} {sA sB : St}
     (h : DRL src al k ls p sA sB) :
     S2 (LLRel src al k ls) (llFall 0 ob L i bA stA sA)
@@ -202,7 +205,7 @@ theorem llFall_sim {src al} (ps : PS src al) (fr : Frames al) (ns : NS src) (tr 
     subst hb
     rw [e1, e2]
     simp only [pure_bind, shB]
-    exact llOpen_sim ps fr ns tr ob L i bA bB stA stB a.node h
+    exact llOpen_sim ps fr ot ns tr ob L i bA bB stA stB a.node h
   · rw [if_neg hA]
     have hi0 : i = 0 := by
       simp only [bne_iff_ne, ne_eq, Decidable.not_not] at hA; exact hA
@@ -210,12 +213,12 @@ theorem llFall_sim {src al} (ps : PS src al) (fr : Frames al) (ns : NS src) (tr 
     have e : liftE (blockAt (bqBlock :: ob.map shB) ((0 : Int) + 1 - 1)) sB = .ok (bqBlock, sB) := rfl
     rw [bind_run e]
     simp only [pure_bind, bqBlock]
-    exact llOpen_sim ps fr ns tr ob L 0 bA bB stA stB 0 h
+    exact llOpen_sim ps fr ot ns tr ob L 0 bA bB stA stB 0 h
 
 /-! ### the loop over the opened blocks of A (levels `i`, `i+1`, …) against B's levels `i+1`, … -/
 
-theorem advanceLine_nodes (sA sB : St) {src : Bytes} (h : StoreRel src sA.nodes sB.nodes) :
-    S2 (fun _ _ sA' sB' => StoreRel src sA'.nodes sB'.nodes) (advanceLine sA) (advanceLine sB) :=
+theorem advanceLine_nodes (sA sB : St) {src : Bytes} (h : FRel src sA.nodes sB.nodes) :
+    S2 (fun _ _ sA' sB' => FRel src sA'.nodes sB'.nodes) (advanceLine sA) (advanceLine sB) :=
   S2.ok h
 
 theorem viewA_some_lt {src : Bytes} {ls p : Nat} {line : Bytes} (h : viewA src ls p = some line) : p < lineEnd src ls := by
@@ -224,7 +227,7 @@ theorem viewA_some_lt {src : Bytes} {ls p : Nat} {line : Bytes} (h : viewA src l
   · assumption
   · cases h
 
-theorem lineLoop_sim {src al} (ps : PS src al) (fr : Frames al) (ns : NS src) (tr : TrigOK src al)
+theorem lineLoop_sim {src al} (ps : PS src al) (fr : Frames al) (ot : OT src) (ns : NS src) (tr : TrigOK src al)
     (ob : List Block) (L : Int) :
     ∀ (rest : List Block), (∀ b ∈ rest, b ∈ ob) → ∀ (i : Int), 0 ≤ i → ∀ (stA stB : List LineStat) {k ls p : Nat}
       {sA sB : St}, DR src al k ls p sA sB → sA.pc.opened = ob → L = (ob.length : Int) - 1 →
@@ -245,16 +248,16 @@ theorem lineLoop_sim {src al} (ps : PS src al) (fr : Frames al) (ns : NS src) (t
       have := h.a.opened be (hop ▸ hbe); exact this
     simp only [List.map_cons]
     unfold lineLoop
-    refine S2.bind (S2.andL (peekLine_s2 h.s) (F := fun _ sA' => sA'.pc = sA.pc) (fun a sA' e => ?_))
+    refine S2.bind (S2.andL (peekLine_s2 h.s) (F := fun _ sA' => sA'.pc = sA.pc ∧ sA'.nodes = sA.nodes) (fun a sA' e => ?_))
       (fun a b sA1 sB1 hq => ?_)
     · unfold GM.Blocks.peekLine at e
       cases hp : sA.r.peekLine with
       | error x => rw [hp] at e; cases e
-      | ok y => rw [hp] at e; cases e; rfl
-    obtain ⟨⟨ea, eb, h1⟩, hpc1⟩ := hq
+      | ok y => rw [hp] at e; cases e; exact ⟨rfl, rfl⟩
+    obtain ⟨⟨ea, eb, h1⟩, hpc1, hnd1⟩ := hq
     subst ea eb
     simp only
-    have hd1 : DR src al k ls p sA1 sB1 := ⟨h1, hpc1 ▸ h.a⟩
+    have hd1 : DR src al k ls p sA1 sB1 := ⟨h1, by rw [hpc1, hnd1]; exact h.a⟩
     have hop1 : sA1.pc.opened = ob := by rw [hpc1]; exact hop
     cases hv : viewA src ls p with
     | none =>
@@ -284,13 +287,13 @@ theorem lineLoop_sim {src al} (ps : PS src al) (fr : Frames al) (ns : NS src) (t
       have fall : ∀ {p'} {sA' sB' : St} (stA' stB' : List LineStat), DR src al k ls p' sA' sB' →
           S2 (LLRel src al k ls) (llFall 0 ob L i (isBlankLine ((k : Int) - 1) i stA') stA' sA')
             (llFall 0 (bqBlock :: ob.map shB) (L + 1) (i + 1) (isBlankLine ((k : Int) - 1) (i + 1) stB') stB' sB') :=
-        fun stA' stB' hd => llFall_sim ps fr ns tr ob L i hi _ _ stA' stB' hd.loose
+        fun stA' stB' hd => llFall_sim ps fr ot ns tr ob L i hi _ _ stA' stB' hd.loose
       by_cases hkp : (na.kind != Kind.paragraph) = true
       · rw [if_pos hkp, if_pos hkp]
         obtain ⟨hp, hnsp⟩ := ns k ls p h.s.r.inl
         refine S2.bind (S2.andL (ps.cont be.bp hal k ls p be.node sA2 sB2 h2 hn0 hd2.a hp hnsp)
-          (F := fun _ sA' => AInv al sA'.pc ∧ sA'.pc.opened = sA2.pc.opened)
-          (fun _ sA' e => ⟨fr.cont _ _ _ _ _ e hd2.a, fr.contOpened _ _ _ _ _ e⟩)) (fun sa sb sA4 sB4 hq => ?_)
+          (F := fun _ sA' => AInv al sA'.pc sA'.nodes ∧ sA'.pc.opened = sA2.pc.opened)
+          (fun _ sA' e => ⟨fr.cont _ _ _ _ _ e hal hn0 hd2.a, fr.contOpened _ _ _ _ _ e⟩)) (fun sa sb sA4 sB4 hq => ?_)
         obtain ⟨⟨hs, p', h4⟩, ha4, hop4⟩ := hq
         rw [hs]
         have hd4 : DR src al k ls p' sA4 sB4 := ⟨h4, ha4⟩
@@ -301,8 +304,8 @@ theorem lineLoop_sim {src al} (ps : PS src al) (fr : Frames al) (ns : NS src) (t
           rw [hcond]
           by_cases hch : (sa.hasChildren && i == L) = true
           · rw [if_pos hch, if_pos hch]
-            refine S2.bind (openBlocks_sim ps fr ns tr _ _ be.node hd4.loose) (fun ra rb sA5 sB5 hq => ?_)
-            obtain ⟨_, p'', h5⟩ := hq
+            refine S2.bind (openBlocks_sim ps fr ot ns tr _ _ be.node hd4.loose) (fun ra rb sA5 sB5 hq => ?_)
+            obtain ⟨_, ⟨p'', h5⟩, _⟩ := hq
             exact S2.pure ⟨rfl, p'', h5⟩
           · rw [if_neg hch, if_neg hch]
             simp only [Bool.not_false, if_true]
